@@ -14,6 +14,7 @@ import (
 	"fmt"
 	"io"
 	"os"
+	"strings"
 	"syscall"
 	"time"
 
@@ -51,26 +52,43 @@ type pending struct {
 
 // World is the singleton environment of a child process.
 type World struct {
-	S      *scn.Scenario
-	Core   *core.Core
-	log    *os.File
-	start  time.Time
-	queue  []pending
-	nDL    int // downlink messages produced so far (index k)
-	nUL    int
-	nWrite int
-	lastDL int64 // FIFO: delivery time of the previous downlink message
-	lastUL int64
-	lastSent int64
-	closed bool // local Close called
-	down   bool // peer shut the association down (marker queued)
-	dialed bool
+	S         *scn.Scenario
+	Core      *core.Core
+	log       *os.File
+	start     time.Time
+	queue     []pending
+	nDL       int // downlink messages produced so far (index k)
+	nUL       int
+	nWrite    int
+	lastDL    int64 // FIFO: delivery time of the previous downlink message
+	lastUL    int64
+	lastSent  int64
+	afterDown int  // transport calls made after the shutdown was reported to the emulator
+	closed    bool // local Close called
+	down      bool // peer shut the association down (marker queued)
+	dialed    bool
 }
 
 var W *World
 
 // HangExit is the exit status of a child whose Read can never return.
 const HangExit = 97
+
+// SpinExit is the exit status of a child that keeps calling the transport although nothing can
+// change any more: it polls an association that has shut down (every further Read returns EOF
+// at once), or simulated time has run past any honest conversation. On the fake clock such a
+// loop costs no wall time per iteration but never ends; the shim ends it and says so.
+const SpinExit = 98
+
+const (
+	spinCalls  = 64                            // transport calls tolerated after the shutdown was reported
+	simTimeCap = int64(96 * 3600 * 1000000000) // 96 simulated hours (10 000 UEs need about 3)
+)
+
+func (w *World) spin(reason string) {
+	w.Log(Event{Ev: "spin", UE: -1, Info: map[string]interface{}{"reason": reason}})
+	os.Exit(SpinExit)
+}
 
 // Init loads the scenario named by VSIM_SCENARIO and opens the event log VSIM_LOG.
 // It is idempotent and is called lazily by the shims.
@@ -98,7 +116,6 @@ func Init() *World {
 	W.Log(Event{Ev: "start", UE: -1, Info: map[string]interface{}{"seed": s.Seed, "profile": s.Profile}})
 	return W
 }
-
 
 // Log writes one event line, unbuffered, before the action it describes.
 func (w *World) Log(e Event) {
@@ -165,8 +182,14 @@ func (w *World) Write(b []byte) (int, error) {
 		return 0, syscall.EPIPE
 	}
 	now := w.Now()
+	if now > simTimeCap {
+		w.spin("still writing after 96 simulated hours")
+	}
 	if w.peerDownBy(now) {
 		w.Log(Event{Ev: "ul-after-shutdown", UE: -1, I: j, Hex: w.hexOf(b)})
+		if w.afterDown++; w.afterDown > spinCalls {
+			w.spin("keeps writing to an association that has shut down")
+		}
 		return 0, syscall.EPIPE
 	}
 	arrive := now + w.S.Lat.UL
@@ -235,6 +258,19 @@ func (w *World) enqueue(arrive int64, o core.Out) {
 
 // Garbage replaces a genuine reply by bytes every X.691 decoder must refuse.
 func Garbage(genuine []byte, class string) []byte {
+	if strings.HasPrefix(class, "cut:") {
+		// strict prefix of the genuine reply, cut after n octets (1 <= n < len): the length
+		// determinants inside announce more octets than there are
+		n := 1
+		fmt.Sscan(class[4:], &n)
+		if n >= len(genuine) {
+			n = len(genuine) - 1
+		}
+		if n < 1 {
+			n = 1
+		}
+		return append([]byte{}, genuine[:n]...)
+	}
 	switch class {
 	case "choice":
 		// NGAP-PDU CHOICE index 3 does not exist (three root alternatives)
@@ -270,7 +306,13 @@ func (w *World) Read(buf []byte) (int, error) {
 	if now := w.Now(); p.at > now {
 		time.Sleep(time.Duration(p.at - now))
 	}
+	if w.Now() > simTimeCap {
+		w.spin("still reading after 96 simulated hours")
+	}
 	if p.eof {
+		if w.afterDown++; w.afterDown > spinCalls {
+			w.spin("keeps reading from an association that has shut down")
+		}
 		if p.abort {
 			w.Log(Event{Ev: "read", K: p.k, UE: -1, Err: "ECONNRESET"})
 			return 0, syscall.ECONNRESET
